@@ -978,7 +978,8 @@ hwloc_synthetic_insert_attached(struct hwloc_topology *topology,
 
   hwloc__insert_object_by_cpuset(topology, NULL, child, "synthetic:attached");
 
-  if (attached->attr.memorysidecachesize) {
+  if (attached->attr.memorysidecachesize
+      && hwloc_filter_check_keep_object_type(topology, HWLOC_OBJ_MEMCACHE)) {
     hwloc_obj_t mscachechild = hwloc_alloc_setup_object(topology, HWLOC_OBJ_MEMCACHE, HWLOC_UNKNOWN_INDEX);
     mscachechild->cpuset = hwloc_bitmap_dup(set);
     mscachechild->nodeset = hwloc_bitmap_dup(child->nodeset);
@@ -1038,7 +1039,8 @@ hwloc__look_synthetic(struct hwloc_topology *topology,
 
     hwloc__insert_object_by_cpuset(topology, NULL, obj, "synthetic");
 
-    if (type == HWLOC_OBJ_NUMANODE && curlevel->attr.memorysidecachesize) {
+    if (type == HWLOC_OBJ_NUMANODE && curlevel->attr.memorysidecachesize
+	&& hwloc_filter_check_keep_object_type(topology, HWLOC_OBJ_MEMCACHE)) {
       hwloc_obj_t mscachechild = hwloc_alloc_setup_object(topology, HWLOC_OBJ_MEMCACHE, HWLOC_UNKNOWN_INDEX);
       mscachechild->cpuset = hwloc_bitmap_dup(set);
       mscachechild->nodeset = hwloc_bitmap_dup(obj->nodeset);
